@@ -291,6 +291,7 @@ let print_base track o =
 let sim_main () =
   let sys = ref None in
   let track = ref false in
+  let proto = ref false in
   let sops = ref [] and semit = ref [] and cops = Hashtbl.create 4 and cemit = Hashtbl.create 4 and parts = ref [] in
   let dead = ref false in
   let do_step st =
@@ -347,10 +348,14 @@ let sim_main () =
          let policy = (match get "policy" "all" with "black" -> PBlack | "white" -> PWhite | _ -> PAll) in
          let auth = (match get "auth" "none" with "custom" -> AuthCustom | "proto" -> AuthProto | _ -> AuthNone) in
          track := (get "track" "0" = "1");
+         proto := (get "auth" "none" = "proto");
          let c = { cfg_policy = policy; cfg_auth = auth; cfg_track = !track; cfg_timeout = n_of_dec (get "timeout" "10000") } in
          sys := Some (syse_init c (n_of_dec (get "nclients" "1")));
          dead := false; sops := []; semit := []; Hashtbl.reset cops; Hashtbl.reset cemit; parts := [];
          print_endline "scenario"
+       | ["authz"; c] ->
+         (* oracle annotation: the implementation authorized this client in the coming server frame (protocol check) *)
+         do_step (EBase (StAuthorize (n_of_dec c))); dot := false
        | ["part"; c; spec] ->
          let p = if spec = "-" then [[]] else
            List.map (fun m -> if m = "" then [] else List.map n_of_dec (String.split_on_char ',' m)) (String.split_on_char '|' spec) in
@@ -389,12 +394,14 @@ let sim_main () =
        | [("deliver" | "drop") as verb; c; dir; ch; w] ->
          let chn = int_of_string ch in
          let s2c = (dir = "s2c") in
-         if (s2c && chn <= 1) || ((not s2c) && chn = 0) then
+         let soff = if !proto then 3 else 2 and coff = if !proto then 2 else 1 in
+         if (!proto && s2c && chn = 2) || (!proto && (not s2c) && chn = 1) then ()   (* handshake channels: outside the model *)
+         else if (s2c && chn <= 1) || ((not s2c) && chn = 0) then
            do_step (EBase (if verb = "deliver" then StDeliver (n_of_dec c, s2c, n_of_dec ch, parse_which w)
                            else StDrop (n_of_dec c, s2c, n_of_dec ch, parse_which w)))
          else if s2c then
-           do_step (EDeliverS2C (n_of_dec c, List.nth [SE0; SEI; SEM; SEU; ST] (chn - 2), parse_which w, verb = "drop"))
-         else do_step (EDeliverC2S (n_of_dec c, List.nth [CE0; CEM; CT] (chn - 1), parse_which w))
+           do_step (EDeliverS2C (n_of_dec c, List.nth [SE0; SEI; SEM; SEU; ST] (chn - soff), parse_which w, verb = "drop"))
+         else do_step (EDeliverC2S (n_of_dec c, List.nth [CE0; CEM; CT] (chn - coff), parse_which w))
        | _ -> print_endline ("unknown-step " ^ List.hd t));
       if !dot then print_endline "."
     end
